@@ -60,6 +60,17 @@ func genFullTraffic(g *Gen, faults bool) *FullTrafficScenario {
 		pl.Down = g.Pick(0, 1, 100, g.Int(0, 30000))
 		sc.Conns = append(sc.Conns, pl)
 	}
+	if !faults && g.Bool(0.2) {
+		// long-lived proxied connections: a short StreamTimeout (it bounds only the
+		// wait for a connection's first bytes) and connections on which nothing
+		// moves for longer than that, in both directions, before traffic resumes
+		sc.Client.StreamTimeout = g.Pick(2, 5, 20)
+		for i := range sc.Conns {
+			sc.Conns[i].Up = max(sc.Conns[i].Up, 2)
+			sc.Conns[i].Down = max(sc.Conns[i].Down, 2)
+			sc.Conns[i].PauseMS = sc.Client.StreamTimeout*1000 + g.Pick(500, 1500, 30000)
+		}
+	}
 	if faults {
 		sc.FaultKind = []string{"reset", "eof0", "eof1"}[g.Rng.IntN(3)]
 		sc.FaultLink = g.Int(0, cp.NumConn-1)
@@ -129,7 +140,13 @@ func (r *fullRun) upstream(conn net.Conn) {
 	simsync.Go("h:upstream-w", func() {
 		defer close(wdone)
 		ss := &sizeSeq{class: st.plan.SizeClass, limit: r.limit, x: st.plan.SizeSeed + 1}
+		paused := st.plan.PauseMS <= 0
 		for off := 0; off < down; {
+			if !paused && off >= down/2 {
+				// a long-lived connection: nothing moves for longer than StreamTimeout
+				paused = true
+				Sleep(time.Duration(st.plan.PauseMS) * time.Millisecond)
+			}
 			k := min(ss.next(), down-off)
 			buf := make([]byte, k)
 			fillPat(buf, r.key, tag, 1, off)
@@ -186,7 +203,12 @@ func (r *fullRun) app(st *fullConnState, localAddr string, closeAfter bool) {
 			return
 		}
 		ss := &sizeSeq{class: st.plan.SizeClass, limit: r.limit, x: st.plan.SizeSeed}
+		paused := st.plan.PauseMS <= 0
 		for off := 0; off < st.plan.Up; {
+			if !paused && off >= st.plan.Up/2 {
+				paused = true
+				Sleep(time.Duration(st.plan.PauseMS) * time.Millisecond)
+			}
 			k := min(ss.next(), st.plan.Up-off)
 			buf := make([]byte, k)
 			fillPat(buf, r.key, st.tag, 0, off)
@@ -397,5 +419,7 @@ func init() {
 		Gen: func(g *Gen) any { return genFullTraffic(g, true) }, New: newSc, Run: runFullTraffic, Policy: pol, VirtCap: 20 * time.Minute, MaxSteps: 800000})
 	plans["C01"] = append(plans["C01"], "full-traffic")
 	plans["C10"] = append(plans["C10"], "full-traffic")
+	// C03 end to end: a proxied connection's bytes all arrive before its end
+	plans["C03"] = append(plans["C03"], "full-traffic")
 	plans["C12"] = append(plans["C12"], "full-faults")
 }
